@@ -39,8 +39,8 @@ class Check(core.PropertyCheck):
 
     def model_constants(self, tier):
         if tier == "quick":
-            return {"Alphabet": frozenset(A_QUICK), "MaxLen": 3, "GroupLastOnly": True}
-        return {"Alphabet": frozenset(A_THOROUGH), "MaxLen": 4, "GroupLastOnly": True}
+            return {"Alphabet": frozenset(A_QUICK), "MaxLen": 3, "GroupLastOnly": False}
+        return {"Alphabet": frozenset(A_THOROUGH), "MaxLen": 4, "GroupLastOnly": False}
 
     def model_runs(self, ctx):
         if ctx.quick:
@@ -48,7 +48,7 @@ class Check(core.PropertyCheck):
         # thorough: statistics for the full instance without a dump, behaviours from two dumped instances
         big = ctx.model_check(self.MODEL, self.model_constants("thorough"), dump=False, tag="_big")
         small = ctx.model_check(self.MODEL, self.model_constants("quick"), dump=True)
-        deep = ctx.model_check(self.MODEL, {"Alphabet": frozenset(A_DUMP_THOROUGH), "MaxLen": 4, "GroupLastOnly": True},
+        deep = ctx.model_check(self.MODEL, {"Alphabet": frozenset(A_DUMP_THOROUGH), "MaxLen": 4, "GroupLastOnly": False},
                                dump=True, tag="_deep")
         return [small, deep, big]
 
